@@ -111,7 +111,7 @@ func Run(t *testing.T, cfg Config, exec func(o vsched.Options) (*vsched.Sched, a
 		}
 		check(s, obs, it.Cost)
 		// children, pushed so that the earliest point / lowest alternative is explored first
-		for i := len(s.Points) - 1; i >= len(it.Prefix); i-- {
+		for i := len(s.Points) - 1; i >= len(it.Prefix) && i >= s.From; i-- {
 			p := &s.Points[i]
 			for alt := p.N - 1; alt >= 1; alt-- {
 				c := it.Cost + devCost(cfg, p, alt)
